@@ -167,7 +167,7 @@ def searchGen (seed idx size : Nat) : Case :=
   let tags := [s!"pat={kind}", s!"cs={b2s cs}", s!"row={b2s incl}",
                (if s.isNone then "res=error" else if all == 0 then "hits=0" else if all == 1 then "hits=1" else if all ≤ 5 then "hits=2-5" else "hits>5"),
                (if mx < 0 then "max<0" else if mx == 0 then "max=0" else if mx.toNat < all then "max<N" else if mx.toNat == all then "max=N" else "max>N"),
-               (if multi then "multicol=1" else "multicol=0")] ++
+               (if multi then "multicol=1" else "multicol=0"), s!"depth={Gen.Search.dumpDepth d}", s!"dbs={d.length}"] ++
              (if got > 0 || s.isNone then ["nt"] else [])
   { tags, model := showHits m, spec := showHits s,
     args := [hexRle pat, b2s cs, b2s incl, toString mx, (SearchParse.ofDump d).canon] }
@@ -181,19 +181,21 @@ def search : Family := { name := "search", gen := searchGen, eval := searchEval,
 def tokDetector (tok : Bytes) : Detector :=
   { keywords := [tok.take 4], fromData := fun s => some (if occursIn tok s then [{ detector := s2b "tok", raw := tok }] else []) }
 
+/-- coordinates in the order reported, every coordinate once -/
 def showCoords (fs : List (Bytes × Bytes × Nat × Bytes)) : String :=
   let strs := fs.map fun (db, t, r, c) => s!"{hexOf db}/{hexOf t}/{r}/{hexOf c}"
-  let sorted := strs.mergeSort (fun a b => a ≤ b)
-  joinWith ";" sorted.eraseDups
+  joinWith ";" strs.eraseDups
 
 def modelSecret (tok : Bytes) (d : Dump) : String :=
   showCoords ((Model.Secrets.scanDumpResult [tokDetector tok] Model.SearchShow.showScalar d).filterMap fun f =>
     if f.raw == tok then some (f.db, f.table, f.row, f.col) else none)
 
-/-- spec: exactly the cells whose text contains the token (every planted cell text is ≥ 8 bytes long) -/
+/-- spec: exactly the cells whose text contains the token (every planted cell text is ≥ 8 bytes long), in
+(database, table, row, column) order -/
 def specSecret (tok : Bytes) (d : Dump) : String :=
-  showCoords (d.flatMap fun db => db.tables.flatMap fun t => t.rows.zipIdx.flatMap fun (row, i) =>
-    row.filterMap fun (c, v) => if occursIn tok (fmtV Model.SearchShow.showScalar v) then some (db.name, t.name, i, c) else none)
+  showCoords (d.flatMap fun (db : Database) => db.tables.flatMap fun (t : Table) => t.rows.zipIdx.flatMap fun ((row : Row), i) =>
+    (rowCells t.columns row).filterMap fun (c, v) =>
+      if occursIn tok (fmtV Model.SearchShow.showScalar v) then some (db.name, t.name, i, c) else none)
 
 /-- args: token(hex), dump -/
 def secretEval (args : List String) : String :=
@@ -255,6 +257,99 @@ def secretGen (seed idx size : Nat) : Case :=
 
 def secretscan : Family := { name := "secretscan", gen := secretGen, eval := secretEval, fixed := 150 }
 
+/-! ### text of a cell as the secret scan sees it (`%v`) -/
+
+/-- args: value -/
+def cellfmtEval (args : List String) : String :=
+  match args with
+  | [v] => match SearchParse.parseVal v with
+    | some g => hexOf (fmtV Model.SearchShow.showScalar g)
+    | none => "bad-args"
+  | _ => "bad-args"
+
+def fixedVals : List GoVal :=
+  [.nil, .str [], .str (s2b "1234567"), .str (s2b "12345678"), .arr [], .obj [], .arr [.nil], .obj [(s2b "b", .int 1), (s2b "a", .arr [.str (s2b "x"), .nil, .f64 0x4004000000000000])],
+   .obj [(s2b "", .nil)], .arr [.arr [.arr []]], .bool true, .int (-9223372036854775808), .obj [(s2b "B", .bool false), (s2b "a", .int 0), (s2b "A", .str (s2b "a b"))]]
+
+def cellfmtGen (seed idx size : Nat) : Case :=
+  let v : GoVal :=
+    if idx < fixedVals.length then fixedVals.getD idx .nil
+    else (do let depth ← Gen.oneOf [0, 1, 2, 3, min (size + 2) 5]
+             Gen.Search.genVal depth).run' (Prng.ofSeed seed idx)
+  -- 0x4004000000000000 (2.5) is not in the float table: keep the fixed case honest by using a table value instead
+  let v := match v with | .obj [(b, i), (a, .arr [x, n, .f64 _])] => GoVal.obj [(b, i), (a, .arr [x, n, .f64 0x3ff8000000000000])] | w => w
+  let t := fmtV Model.SearchShow.showScalar v
+  { tags := [(if t.length < 8 then "len<8" else if t.length == 8 then "len=8" else "len>8"),
+             (match v with | .arr _ => "kind=arr" | .obj _ => "kind=obj" | .str _ => "kind=str" | .nil => "kind=nil" | _ => "kind=scalar"), "nt"],
+    model := hexOf t, spec := hexOf t, args := [v.canon] }
+
+def cellfmt : Family := { name := "cellfmt", gen := cellfmtGen, eval := cellfmtEval, fixed := fixedVals.length }
+
+/-! ### full RE2 syntax: the harness itself applies the specified recursion with Go's regexp as the matcher -/
+
+def searchreEval (_ : List String) : String := "agree"
+
+/-- sprinkle non-ASCII and invalid UTF-8 texts over a dump -/
+partial def spice (g : Prng) : GoVal → GoVal × Prng
+  | .str s =>
+    let (x, g) := g.next
+    if x.toNat % 5 == 0 then
+      let w := Gen.Search.uniWords.getD (x.toNat / 5 % Gen.Search.uniWords.length) ""
+      (.str (s ++ strBytes w), g)
+    else if x.toNat % 31 == 1 then (.str (s ++ [0xff, 0xc3, 0x28]), g)
+    else (.str s, g)
+  | .arr xs =>
+    let (ys, g) := xs.foldl (fun (acc, g) x => let (y, g) := spice g x; (acc ++ [y], g)) ([], g)
+    (.arr ys, g)
+  | .obj kvs =>
+    let (ys, g) := kvs.foldl (fun (acc, g) (k, x) => let (y, g) := spice g x; (acc ++ [(k, y)], g)) ([], g)
+    (.obj ys, g)
+  | v => (v, g)
+
+def searchreGen (seed idx size : Nat) : Case :=
+  let (d, pat, cs, incl, mx) : Dump × Bytes × Bool × Bool × Int :=
+    (do let d0 ← Gen.Search.genDump size
+        let g : Prng ← get
+        let (dv, g) := spice g (SearchParse.ofDump d0)
+        set g
+        let d := (SearchParse.toDump dv).getD d0
+        let depth ← Gen.oneOf [0, 1, 1, 2, 3]
+        let pat ← Gen.Search.genRe depth
+        let cs ← Gen.bool
+        let incl ← Gen.bool
+        let mx ← Gen.oneOf [(0 : Int), 0, 1, 2, 3, 5, -1, 100]
+        return (d, strBytes pat, cs, incl, mx)).run' (Prng.ofSeed seed idx)
+  { tags := [s!"cs={b2s cs}", s!"row={b2s incl}", (if mx ≤ 0 then "max=none" else "max>0"), "nt"],
+    model := "agree", spec := "agree", args := [hexRle pat, b2s cs, b2s incl, toString mx, (SearchParse.ofDump d).canon] }
+
+def searchre : Family := { name := "searchre", gen := searchreGen, eval := searchreEval, fixed := 0 }
+
+/-! ### a large cell (C10, resource clause): the scan must stay within a small multiple of the cell size -/
+
+def filler : Bytes := s2b "lorem ipsum dolor sit amet "
+
+def bigCell (tok : Bytes) (reps : Nat) : Bytes := (List.replicate reps filler).flatten ++ tok
+
+def bigDump (tok : Bytes) (reps : Nat) : Dump :=
+  [{ name := s2b "d", tables := [{ name := s2b "t", columns := [s2b "id", s2b "body"],
+                                    rows := [[(s2b "id", .int 1), (s2b "body", .str (bigCell tok reps))]] }] }]
+
+/-- args: token(hex), repetitions of the filler text before the token -/
+def secretbigEval (args : List String) : String :=
+  match args with
+  | [tok, reps] => modelSecret (unhex tok) (bigDump (unhex tok) reps.toNat!)
+  | _ => "bad-args"
+
+def secretbigGen (seed idx size : Nat) : Case :=
+  let kinds := Gen.Search.tokenKinds
+  let kind := kinds.getD (idx % kinds.length) "stripe"
+  let tok := (Gen.Search.genToken kind).run' (Prng.ofSeed seed idx)
+  let reps := 1500 * (size + 1) + 97 * (idx % 5)
+  { tags := [s!"kind={kind}", s!"cellKiB={(reps * filler.length) / 1024}", "nt"],
+    model := modelSecret tok (bigDump tok reps), spec := specSecret tok (bigDump tok reps), args := [hexOf tok, toString reps] }
+
+def secretbig : Family := { name := "secretbig", gen := secretbigGen, eval := secretbigEval, fixed := 0 }
+
 /-! ### hostile patterns and shapes (C10) -/
 
 def hostilePatterns : List String :=
@@ -283,7 +378,7 @@ def searchmutGen (seed idx size : Nat) : Case :=
       (do let which ← Gen.below 4
           let p ← genHostile which
           let shape ← Gen.below 7
-          let depth ← Gen.oneOf [0, 1, 5, 50, 200 * (size + 1)]
+          let depth ← Gen.oneOf [0, 1, 5, 50, 200 * (size + 1), 10000]
           return (p, shape, depth)).run' (Prng.ofSeed seed idx)
   { tags := [s!"shape={shape}", "nt"], model := "ok", spec := "ok",
     args := [hexRle pat, b2s (idx % 2 == 0), toString (idx % 3), toString shape, toString depth] }
